@@ -402,6 +402,11 @@ func (c GeometryCollection) CoordinatesType() CoordinatesType {
 // ForceCoordinatesType returns a new GeometryCollection with a different CoordinatesType. If
 // a dimension is added, then new values are populated with 0.
 func (c GeometryCollection) ForceCoordinatesType(newCType CoordinatesType) GeometryCollection {
+	if newCType == c.ctype {
+		// Nothing to change. Returning early also keeps the construction of
+		// deeply nested collections linear rather than quadratic in the depth.
+		return c
+	}
 	gs := make([]Geometry, len(c.geoms))
 	for i := range c.geoms {
 		gs[i] = c.geoms[i].ForceCoordinatesType(newCType)
